@@ -8,6 +8,7 @@ import (
 	"encoding/hex"
 	"encoding/json"
 	"fmt"
+	"os"
 	"runtime"
 	"sync"
 	"testing"
@@ -89,6 +90,28 @@ func checkValid(b []byte) (string, bool) {
 			ierr = fit.CheckIntegrity(gen.NewReader(b, ch), false)
 		}); p != nil || derr != nil || ierr != nil {
 			return fmt.Sprintf("valid file rejected when read with chunking %v: Decode err=%v CheckIntegrity err=%v panic=%v", ch, derr, ierr, p), false
+		}
+	}
+	// nor on the concrete type of the reader (seekable and not at offset 0,
+	// a file, a pipe, buffered)
+	for _, kind := range gen.ReaderKinds(os.Getenv("VERIF_BUILD")) {
+		for call := 0; call < 2; call++ {
+			r, _, done, err := kind.Open(b)
+			if err != nil {
+				break
+			}
+			var cerr error
+			p := oracle.Catch(func() {
+				if call == 0 {
+					_, cerr = fit.Decode(r)
+				} else {
+					cerr = fit.CheckIntegrity(r, false)
+				}
+			})
+			done()
+			if p != nil || cerr != nil {
+				return fmt.Sprintf("valid file rejected when read through a %s: %s err=%v panic=%v", kind.Name, []string{"Decode", "CheckIntegrity"}[call], cerr, p), false
+			}
 		}
 	}
 	return "", true
